@@ -99,7 +99,13 @@ if __name__ == "__main__":
     cfgname = "default"
     if args and args[0] == "--cfg":
         cfgname = args[1]; args = args[2:]
-    fx = F.Facts(extract.facts_path(cfgname), cfgname)
+    if args and args[0] == "--norm":
+        args = args[1:]
+        import normalise
+        fx = normalise.load(cfgname)
+        print("normalisation:", {k: (v if not isinstance(v, list) else v[:8]) for k, v in fx.normalisation.items()}, "hidden:", sorted(fx.hidden()))
+    else:
+        fx = F.Facts(extract.facts_path(cfgname), cfgname)
     if args[0] == "--list":
         for k in sorted(fx.find(args[1])): print(k)
         sys.exit(0)
